@@ -655,6 +655,46 @@ func extractC20(c *ctx) (Facts, error) {
 
 	f["builder_router_metrics_shape"] = shape("components/metrics/builder.go", "PrometheusMetricsBuilder", "AddPrometheusRouterMetrics")
 
+	// --- the two "already observed" marks must be DISTINCT context keys (same type, different constant values):
+	// the value of each constant is computed from its declaration (explicit literal, or iota = index of the spec in its block)
+	if cf, err := c.file("components/metrics/ctx.go"); err != nil {
+		fail(err)
+	} else {
+		vals := map[string]string{}
+		for _, d := range cf.Decls {
+			gd, ok := d.(*ast.GenDecl)
+			if !ok || gd.Tok != token.CONST {
+				continue
+			}
+			var lastExpr, lastType string
+			for k, sp := range gd.Specs {
+				vs := sp.(*ast.ValueSpec)
+				if len(vs.Values) > 0 {
+					lastExpr = c.src(vs.Values[0])
+					lastType = ""
+					if vs.Type != nil {
+						lastType = c.src(vs.Type)
+					}
+				}
+				for _, n := range vs.Names {
+					v := "?" + lastExpr
+					if lastExpr == "iota" {
+						v = fmt.Sprintf("%d", k)
+					} else if _, e := fmt.Sscanf(lastExpr, "%d", new(int)); e == nil {
+						v = lastExpr
+					}
+					if len(vs.Names) != 1 || (len(vs.Values) > 1) {
+						v = "?multi"
+					}
+					vals[n.Name] = lastType + "(" + v + ")"
+				}
+			}
+		}
+		p, s1 := vals["publishObserved"], vals["subscribeObserved"]
+		f["ctx_mark_keys"] = "publishObserved=" + p + ",subscribeObserved=" + s1
+		f["ctx_mark_keys_distinct"] = p != "" && s1 != "" && p != s1 && !strings.Contains(p+s1, "?")
+	}
+
 	// --- the context marks
 	f["ctx_publishAlreadyObserved"] = shape("components/metrics/ctx.go", "", "publishAlreadyObserved")
 	f["ctx_setPublishObservedToCtx"] = shape("components/metrics/ctx.go", "", "setPublishObservedToCtx")
